@@ -24,6 +24,7 @@ def unit(name, alias, rx, names=None, names_opt=None, boundary=(), **kw):
 UNITS = [
     unit('subscribe_check_ready', 'aw_subscribe_check_ready', r'^cocls::awaiter::subscribe_check_ready\(std::atomic<cocls::awaiter\*>&, cocls::awaiter&\)$', names_opt={'aw_subscribe': AW_SUB}, loop_contracts=True, defines=SNAP),
     unit('resume_chain_set_ready', 'aw_resume_chain_set_ready', r'^cocls::awaiter::resume_chain_set_ready\(std::atomic<cocls::awaiter\*>&, cocls::awaiter&\)$', names_opt={'aw_resume_chain_lk': RC_LK}, boundary=[RC_LK]),
+    unit('fu_resolve', 'fu_resolve', r'^cocls::future<int>::resolve\(\)$', names_opt={'aw_resume_chain_lk': RC_LK}, boundary=[RC_LK]),
     dict(unit('ab_ready', 'ab_ready', r'^cocls::future<int>::awaitable_bool::await_ready\(\)$', names_opt={'ab_fc_ready_stub': FC_READY, 'ab_sync_stub': CO_SYNC}, boundary=[FC_READY, CO_SYNC]), lib=['rt_core.c', 'rt_atomic_seq.c'], types=dict(TYPES, ABOOL='cocls::future<int>::awaitable_bool', FUT='cocls::future<int>')),
     dict(unit('ab_bool', 'ab_bool', r'^cocls::future<int>::awaitable_bool::operator bool\(\) const$', names_opt={'ab_fc_ready_stub': FC_READY, 'ab_sync_stub': CO_SYNC}, boundary=[FC_READY, CO_SYNC]), lib=['rt_core.c', 'rt_atomic_seq.c'], types=dict(TYPES, ABOOL='cocls::future<int>::awaitable_bool', FUT='cocls::future<int>')),
     unit('resume', 'aw_resume', r'^cocls::awaiter::resume\(\)$'),
